@@ -8,6 +8,9 @@ import time
 from typing import Dict, List, Optional
 
 from . import VERIF, REPO
+
+# evidence / replay files go to /verif unless a scratch run (self-test, triage of another tree) redirects them
+OUTROOT = os.environ.get("VERIF_OUT", VERIF)
 from .model import AnalysisError, FuncInfo
 
 OK, VIOLATION, NOTE = "ok", "violation", "note"
@@ -97,7 +100,7 @@ class Report:
                 listed.append((v, ent))
             else:
                 fresh.append(v)
-        outdir = os.path.join(VERIF, "out", self.prop)
+        outdir = os.path.join(OUTROOT, "out", self.prop)
         os.makedirs(outdir, exist_ok=True)
         for fn in os.listdir(outdir):
             if fn.endswith(".json"):
@@ -114,9 +117,9 @@ class Report:
         for e in self.errors:
             print("ANALYSIS-ERROR property=%s %s" % (self.prop, e))
         self._write_evidence(len(fresh), len(listed))
-        if self.errors:
-            return 2
-        return 1 if fresh else 0
+        if fresh:
+            return 1            # a decided violation stands even if another rule could not be decided
+        return 2 if self.errors else 0
 
     def _write_evidence(self, nviol, nknown):
         decided = [i for i in self.instances if i.verdict in (OK, VIOLATION)]
@@ -167,7 +170,7 @@ class Report:
             "wall_s": round(time.time() - self.t0, 3),
             "violations": nviol,
         }
-        evdir = os.path.join(VERIF, "evidence")
+        evdir = os.path.join(OUTROOT, "evidence")
         os.makedirs(evdir, exist_ok=True)
         with open(os.path.join(evdir, "%s.json" % self.prop), "w") as fh:
             json.dump(ev, fh, indent=1, default=str)
